@@ -5,6 +5,10 @@ sub-expressions are re-emitted unchanged, `RULE(body, ctx) -> (new_body, fired_c
 raises LostAnchor rather than guess.  The prelude items the rules refer to are in vx/prelude/am.rs.
 
   R6F       `(P.FIELD)(args)`  (call of a fn-pointer stored in a struct field)  ->  `P.FIELD.call(args)`
+  FOR_NEXT  `for P in E { .. continue .. }` over an iterator value            ->  `loop` over `E.next()`
+  COUNT_FILTER              `X.iter().filter(|P| F).count()`                  ->  counting `while` loop
+  ENUM_FILTER_MAP_FOR_EACH  `X.iter().enumerate().filter_map(|P1| E1).for_each(|P2| E2);` -> index `while` loop
+  AUTOREF_INTO_ITER         `for PAT in X.F.into_iter() {` (X a shared reference) ->  `for PAT in X.F.iter() {`
 """
 import re
 
@@ -52,3 +56,227 @@ def R6F(body, ctx):
 
 
 _EXPR_KEYWORDS = ('if', 'match', 'return', 'while', 'in', 'else', 'break', 'let', 'mut')
+
+
+def _closure_args(body, start, mask):
+    """body[start] == '|': parse `|PARAMS| EXPR` where the closure is the single argument of a call whose `(` precedes
+    `start` (modulo spaces).  Returns (params_text, expr_text, index_of_the_call's_closing_paren)."""
+    k = start - 1
+    while k >= 0 and body[k] in ' \t\n':
+        k -= 1
+    if k < 0 or body[k] != '(':
+        raise LostAnchor('closure is not a call argument')
+    pc = match_close(body, k, mask)
+    # the parameter list ends at the next top-level `|`
+    depth, j = 0, start + 1
+    while j < pc:
+        c = body[j]
+        if c in '([{':
+            depth += 1
+        elif c in ')]}':
+            depth -= 1
+        elif c == '|' and depth == 0:
+            break
+        j += 1
+    if j >= pc:
+        raise LostAnchor('closure without parameter list')
+    return body[start + 1:j].strip(), body[j + 1:pc].strip(), pc
+
+
+def _receiver_start(body, end, mask):
+    """start index of the postfix expression (identifiers, `.`, calls, indexes) that ends at `end`."""
+    k = end
+    while k > 0 and body[k - 1] in ' \t\n':
+        k -= 1
+    while k > 0:
+        c = body[k - 1]
+        if c.isalnum() or c in '_.':
+            k -= 1
+        elif c in ' \t\n':
+            # whitespace inside a method chain (`state\n .crashed`): continue only if a `.` follows / precedes
+            j = k - 1
+            while j > 0 and body[j - 1] in ' \t\n':
+                j -= 1
+            if body[k:k + 1] == '.' or (j > 0 and body[j - 1] == '.'):
+                k = j
+            else:
+                break
+        elif c in ')]':
+            depth, j = 0, k - 1
+            while j >= 0:
+                if mask[j] and body[j] in ')]':
+                    depth += 1
+                elif mask[j] and body[j] in '([':
+                    depth -= 1
+                    if depth == 0:
+                        break
+                j -= 1
+            k = j
+        else:
+            break
+    return k
+
+
+def _let(pat, expr):
+    """`let PAT = EXPR;` with reference patterns eliminated (Verus has no `&x` patterns): a leading `&` of the pattern
+    cancels a leading `&` of the expression (`let &x = &E;` is `let x = E;`, which needs `E: Copy` exactly as the
+    original does); a 2-tuple pattern against a 2-tuple expression is split componentwise."""
+    pat, expr = pat.strip(), expr.strip()
+    if pat.startswith('(') and pat.endswith(')') and expr.startswith('(') and expr.endswith(')'):
+        ps, es = _split2(pat[1:-1]), _split2(expr[1:-1])
+        if ps and es:
+            return ' '.join(_let(a, b) for a, b in zip(ps, es))
+    while pat.startswith('&') and expr.startswith('&'):
+        pat, expr = pat[1:].strip(), expr[1:].strip()
+    if not re.match(r'(mut\s+)?%s$' % IDENT, pat) and pat != '_':
+        raise LostAnchor('closure parameter pattern `%s` is not supported' % pat)
+    return 'let %s = %s;' % (pat, expr)
+
+
+def _split2(s):
+    depth = 0
+    for k, c in enumerate(s):
+        if c in '([{':
+            depth += 1
+        elif c in ')]}':
+            depth -= 1
+        elif c == ',' and depth == 0:
+            a, b = s[:k].strip(), s[k + 1:].strip().rstrip(',').strip()
+            if a and b and ',' not in b:
+                return [a, b]
+            return None
+    return None
+
+
+def FOR_NEXT(body, ctx):
+    """`for P in E { B }` where B contains `continue` (which Verus rejects inside `for`) and E is an iterator value
+    (a method call returning an `Iterator`, for which `IntoIterator::into_iter` is the identity)
+    -> `{ let mut nxK_ = E; loop { let P = match nxK_.next() { Some(x_) => x_, None => { break; } }; B } }`:
+    the language's own desugaring of `for`.  P, E and B are re-emitted unchanged; K is the ordinal of the `for`."""
+    n, k_ord = 0, 0
+    rx = re.compile(r'(?<![A-Za-z0-9_.])for\b')
+    pos = 0
+    while True:
+        mask = code_mask(body)
+        m = _first_code_match(rx, body, mask, pos)
+        if not m:
+            break
+        k_ord += 1
+        mi = find_top(body, r'\bin\b', m.end(), mask)
+        mo = find_top(body, r'\{', m.end(), mask)
+        if not mi or not mo or mi.start() > mo.start():
+            raise LostAnchor('FOR_NEXT: `for` without `in`')
+        ob = mo.start()
+        cb = match_close(body, ob, mask)
+        inner = body[ob + 1:cb]
+        pat = body[m.end():mi.start()].strip()
+        expr = body[mi.end():ob].strip()
+        if not re.search(r'(?<![A-Za-z0-9_])continue\b', inner) or not re.search(r'\)\s*$', expr) or '..' in expr:
+            pos = m.end()
+            continue
+        it = 'nx%d_' % k_ord
+        new = ('{ let mut %s = %s;\n        loop {\n            let %s = match %s.next() { Some(x_) => x_, None => { break; } };'
+               % (it, expr, pat, it)) + inner + '} }'
+        body = body[:m.start()] + new + body[cb + 1:]
+        pos = m.start() + len('{ let mut ')
+        n += 1
+    return body, n
+
+
+def COUNT_FILTER(body, ctx):
+    """`X.iter().filter(|P| F).count()`  ->  an explicit counting loop over `X` (a Vec / slice; std: `filter` "creates
+    an iterator which uses a closure to determine if an element should be yielded", `count` "consumes the iterator,
+    counting the number of iterations"):
+    { let mut c_: usize = 0; let mut j_: usize = 0; while j_ < X.len() { let P = &&X[j_]; j_ += 1; if F { c_ += 1; } } c_ }
+    (the closure of `filter` receives `&Self::Item`, i.e. `&&T`).  X, P and F are re-emitted unchanged."""
+    n = 0
+    rx = re.compile(r'\.\s*iter\(\)\s*\.\s*filter\(\s*')
+    while True:
+        mask = code_mask(body)
+        hit = None
+        for m in rx.finditer(body):
+            if not mask[m.start()]:
+                continue
+            params, f, pc = _closure_args(body, m.end(), mask)
+            m2 = re.match(r'\s*\.\s*count\(\s*\)', body[pc + 1:])
+            if not m2:
+                continue
+            k = _receiver_start(body, m.start(), mask)
+            recv = re.sub(r'\s+', '', body[k:m.start()])
+            if not recv:
+                continue
+            hit = (k, pc + 1 + m2.end(), recv, params, f)
+            break
+        if not hit:
+            break
+        k, end, recv, params, f = hit
+        loop = ('{ let mut c_: usize = 0; let mut j_: usize = 0;\n            while j_ < %s.len() { %s j_ += 1; if %s { c_ += 1; } }\n            c_ }'
+                % (recv, _let(params, '&&%s[j_]' % recv), f))
+        body = body[:k] + loop + body[end:]
+        n += 1
+    return body, n
+
+
+def ENUM_FILTER_MAP_FOR_EACH(body, ctx):
+    """`X.iter().enumerate().filter_map(|P1| E1).for_each(|P2| E2);`  (X a Vec / slice)
+    -> `{ let mut j_: usize = 0; while j_ < X.len() { let P1 = (j_, &X[j_]); j_ += 1;
+          match (E1) { Some(x_) => { let P2 = x_; E2; } None => {} } } }`
+    std: `enumerate` yields `(index, &element)` from index 0 upwards, `filter_map` "yields only the values for which
+    the supplied closure returns Some(value)", `for_each` "calls a closure on each element", all in iteration
+    order.  X, P1, E1, P2 and E2 are re-emitted unchanged."""
+    n = 0
+    rx = re.compile(r'\.\s*iter\(\)\s*\.\s*enumerate\(\)\s*\.\s*filter_map\(\s*')
+    while True:
+        mask = code_mask(body)
+        hit = None
+        for m in rx.finditer(body):
+            if not mask[m.start()]:
+                continue
+            p1, e1, pc = _closure_args(body, m.end(), mask)
+            m2 = re.match(r'\s*\.\s*for_each\(\s*', body[pc + 1:])
+            if not m2:
+                continue
+            p2, e2, pc2 = _closure_args(body, pc + 1 + m2.end(), mask)
+            m3 = re.match(r'\s*;', body[pc2 + 1:])
+            if not m3:
+                raise LostAnchor('ENUM_FILTER_MAP_FOR_EACH: `.for_each(..)` is not a statement')
+            k = _receiver_start(body, m.start(), mask)
+            recv = re.sub(r'\s+', '', body[k:m.start()])
+            if not recv:
+                continue
+            hit = (k, pc2 + 1 + m3.end(), recv, p1, e1, p2, e2)
+            break
+        if not hit:
+            break
+        k, end, recv, p1, e1, p2, e2 = hit
+        loop = ('{ let mut j_: usize = 0;\n            while j_ < %s.len() { %s j_ += 1;\n'
+                '                match (%s) { Some(x_) => { %s %s; } None => {} } } }'
+                % (recv, _let(p1, '(j_, &%s[j_])' % recv), e1, _let(p2, 'x_'), e2))
+        body = body[:k] + loop + body[end:]
+        n += 1
+    return body, n
+
+
+def AUTOREF_INTO_ITER(body, ctx):
+    """`for PAT in X.F.into_iter() {` where X is bound as a *shared reference* by an enclosing
+    `for (I, X) in V.iter().enumerate()` (or its R3 form `let X = &V[I];`): the field place `X.F` cannot be moved out
+    of, so method resolution auto-refs and calls `<&T as IntoIterator>::into_iter`, which for the std maps/sets and
+    /repo's Hashable* wrappers is `iter()` -> `for PAT in X.F.iter() {`."""
+    rx = re.compile(r'(?<![A-Za-z0-9_.])for\b(\s*[^{};]*?\s)in\s+(%s)((?:\s*\.\s*%s)+)\s*\.\s*into_iter\(\)\s*\{' % (IDENT, IDENT))
+    mask = code_mask(body)
+    out, pos, n = [], 0, 0
+    for m in rx.finditer(body):
+        if not mask[m.start()] or m.start() < pos:
+            continue
+        root = m.group(2)
+        before = body[:m.start()]
+        is_ref = (re.search(r'for\s*\(\s*%s\s*,\s*%s\s*\)\s*in\s+[^{;]*\.iter\(\)\.enumerate\(\)' % (IDENT, re.escape(root)), before)
+                  or re.search(r'let\s+%s\s*=\s*&' % re.escape(root), before))
+        if not is_ref:
+            raise LostAnchor('AUTOREF_INTO_ITER: `%s` is not known to be a shared reference' % root)
+        out.append(body[pos:m.start()])
+        out.append('for%sin %s%s.iter() {' % (m.group(1), root, re.sub(r'\s+', '', m.group(3))))
+        pos = m.end()
+        n += 1
+    out.append(body[pos:])
+    return ''.join(out), n
